@@ -12,6 +12,10 @@ EXTENDS FPValues, Json, Params
 
 Funcs == ndJsonDeserialize(FuncFile)        \* [name, min, max, exp]
 
+(* The "var" form is evaluated in a way that also exposes state kept in the compiled expression: the harness       *)
+(* compiles once, evaluates first with %none bound to a NON-empty value and then with %none bound to the empty       *)
+(* collection; the second outcome is the one judged.                                                                  *)
+
 (* the documented aggregates: an empty input has a defined, non-empty answer *)
 Aggregates == {"exists", "empty", "count", "all", "allTrue", "anyTrue", "allFalse", "anyFalse",
                "isDistinct", "iif", "now", "today", "timeOfDay"}
@@ -31,9 +35,12 @@ Filler ==
    union |-> <<"1">>, combine |-> <<"1">>, trace |-> <<"'t'", "$this">>]
 (* receivers for argument-position cases, and which argument positions require a single value *)
 Receiver ==
-  [skip |-> "%ints", take |-> "%ints", extension |-> "Patient",
-   indexOf |-> "'abc'", substring |-> "'abc'", startsWith |-> "'abc'", endsWith |-> "'abc'", contains |-> "'abc'",
-   replace |-> "'abc'", matches |-> "'abc'", replaceMatches |-> "'abc'", log |-> "8", power |-> "2", round |-> "1.25"]
+  [skip |-> <<"%ints", "Patient.name">>, take |-> <<"%ints", "Patient.name">>, extension |-> <<"Patient", "Patient.birthDate">>,
+   indexOf |-> <<"'abc'", "Patient.gender">>, substring |-> <<"'abc'", "Patient.gender">>, startsWith |-> <<"'abc'", "Patient.id">>,
+   endsWith |-> <<"'abc'", "Patient.id">>, contains |-> <<"'abc'", "Patient.gender">>,
+   replace |-> <<"'abc'", "Patient.gender">>, matches |-> <<"'abc'", "Patient.gender">>, replaceMatches |-> <<"'abc'", "Patient.gender">>,
+   log |-> <<"8", "8.5", "Patient.multipleBirth">>, power |-> <<"2", "2.5", "Patient.multipleBirth">>,
+   round |-> <<"1.25", "7", "Patient.multipleBirth">>]
 SingleValueArgs ==
   [skip |-> {1}, take |-> {1}, extension |-> {1}, indexOf |-> {1}, substring |-> {1, 2}, startsWith |-> {1}, endsWith |-> {1},
    contains |-> {1}, replace |-> {1, 2}, matches |-> {1}, replaceMatches |-> {1, 2}, log |-> {1}, power |-> {1}, round |-> {1}]
@@ -57,13 +64,15 @@ JoinArgs(name, n, k, pos, form) ==   \* arguments k..n, the pos-th one being the
 
 (* function cases: [kind "fn", name, n (arity used), pos (0 = the input is empty, k = argument k is empty), form, exp] *)
 FnText(c) ==
-  (IF c.pos = 0 THEN EmptyForms[c.form] ELSE Receiver[c.name]) \o "." \o c.name \o "(" \o JoinArgs(c.name, c.n, 1, c.pos, c.form) \o ")"
+  (IF c.pos = 0 THEN EmptyForms[c.form] ELSE Receiver[c.name][c.rcv]) \o "." \o c.name \o "(" \o JoinArgs(c.name, c.n, 1, c.pos, c.form) \o ")"
 
 (* operator cases: [kind "op", op, pos in {"l","r","both"}, form] *)
+(* the non-empty operand of a binary operator: whatever its type, an empty other operand gives empty *)
+OtherOperands == <<"1", "'a'", "1.5", "@2020", "@T10:00", "1 'mg'", "true", "Patient.gender", "Patient.multipleBirth">>
 BinOps == {"+", "-", "*", "/", "div", "mod", "<", "<=", ">", ">=", "=", "!=", "&"}
 OpText(c) ==
   LET e == EmptyForms[c.form]
-      one == IF c.op = "&" THEN "'a'" ELSE "1"
+      one == IF c.op = "&" THEN "'a'" ELSE OtherOperands[c.rcv]
   IN CASE c.op \in BinOps -> (IF c.side = "r" THEN one ELSE e) \o " " \o c.op \o " " \o (IF c.side = "l" THEN one ELSE e)
        [] c.op = "is"   -> e \o " is Integer"
        [] c.op = "as"   -> e \o " as Integer"
@@ -72,21 +81,22 @@ OpText(c) ==
        [] c.op = "idx"  -> (IF c.side = "r" THEN "%ints" ELSE e) \o "[" \o (IF c.side = "l" THEN "0" ELSE e) \o "]"
 
 OpCases ==
-  {[kind |-> "op", op |-> o, side |-> p, pos |-> 0, form |-> f, name |-> "-", n |-> 0, exp |-> FALSE] : o \in BinOps, p \in {"l", "r", "both"}, f \in Forms}
-  \cup {[kind |-> "op", op |-> o, side |-> "l", pos |-> 0, form |-> f, name |-> "-", n |-> 0, exp |-> FALSE] : o \in {"is", "as", "neg", "pos"}, f \in Forms}
-  \cup {[kind |-> "op", op |-> "idx", side |-> p, pos |-> 0, form |-> f, name |-> "-", n |-> 0, exp |-> FALSE] : p \in {"l", "r", "both"}, f \in Forms}
+  {[kind |-> "op", op |-> o, side |-> p, pos |-> 0, rcv |-> q, form |-> f, name |-> "-", n |-> 0, exp |-> FALSE] :
+       o \in BinOps, p \in {"l", "r", "both"}, f \in Forms, q \in 1..Len(OtherOperands)}
+  \cup {[kind |-> "op", op |-> o, side |-> "l", pos |-> 0, rcv |-> 1, form |-> f, name |-> "-", n |-> 0, exp |-> FALSE] : o \in {"is", "as", "neg", "pos"}, f \in Forms}
+  \cup {[kind |-> "op", op |-> "idx", side |-> p, pos |-> 0, rcv |-> 1, form |-> f, name |-> "-", n |-> 0, exp |-> FALSE] : p \in {"l", "r", "both"}, f \in Forms}
 
 Arities(fn) == {n \in 0..4 : fn.min <= n /\ n <= fn.max}
 FnCasesOf(fn) ==
-  {[kind |-> "fn", op |-> "-", side |-> "-", name |-> fn.name, n |-> n, pos |-> 0, form |-> f, exp |-> fn.exp] : n \in Arities(fn), f \in Forms}
+  {[kind |-> "fn", op |-> "-", side |-> "-", name |-> fn.name, n |-> n, pos |-> 0, rcv |-> 1, form |-> f, exp |-> fn.exp] : n \in Arities(fn), f \in Forms}
   \cup (IF fn.name \in DOMAIN SingleValueArgs
-        THEN {[kind |-> "fn", op |-> "-", side |-> "-", name |-> fn.name, n |-> n, pos |-> k, form |-> f, exp |-> fn.exp] :
-                 n \in Arities(fn), k \in SingleValueArgs[fn.name], f \in Forms}
+        THEN {[kind |-> "fn", op |-> "-", side |-> "-", name |-> fn.name, n |-> n, pos |-> k, rcv |-> q, form |-> f, exp |-> fn.exp] :
+                 n \in Arities(fn), k \in SingleValueArgs[fn.name], f \in Forms, q \in 1..Len(Receiver[fn.name])}
         ELSE {})
 ValidFnCase(c) == c.pos <= c.n
 
 Text(c) == IF c.kind = "op" THEN OpText(c) ELSE FnText(c)
-CaseId(c) == c.kind \o "/" \o c.op \o c.name \o "/" \o ToString(c.n) \o "/" \o c.side \o ToString(c.pos) \o "/" \o c.form \o (IF c.exp THEN "/exp" ELSE "")
+CaseId(c) == c.kind \o "/" \o c.op \o c.name \o "/" \o ToString(c.n) \o "/" \o c.side \o ToString(c.pos) \o "/r" \o ToString(c.rcv) \o "/" \o c.form \o (IF c.exp THEN "/exp" ELSE "")
 
 StrA == S(<<97>>)
 (* Permitted outcomes. "AnyOk" = any value or error, never a panic/timeout. *)
